@@ -42,7 +42,9 @@ impl Record {
 
     pub fn alignment_end(&self) -> Option<Position> {
         self.alignment_start.and_then(|start| {
-            let end = usize::from(start) + self.alignment_span() - 1;
+            // A placed record without any base (e.g., an unmapped mate with `SEQ` = `*`) still
+            // occupies its start position.
+            let end = usize::from(start) + self.alignment_span().max(1) - 1;
             Position::new(end)
         })
     }
